@@ -132,15 +132,24 @@ static void run_wrappers(Ctx& ctx, uint64_t N, const CpuCfg& cfg, int mtype) {
     for (int64_t p = -2; p < (int64_t)(2 * N + 2); ++p) {
       if (op.model == 'a' && !(p & 1)) continue;
       for (uint64_t rs = 0; rs <= 3; ++rs) for (uint64_t as = 0; as <= 3; ++as) for (uint64_t sl : {N, N + 3}) {
-        VecShape s; s.N = N; s.rs = rs; s.as = as; s.rsl = sl; s.asl = (sl == N ? N + 3 : N); s.p = p; s.res_extra = 1;
-        ApiCase c = gen_vecop(mod, op, s, mtype ? "ntt120" : "fft64", cfg.name);
-        if (!ctx.want(c.id)) continue;
-        ctx.begin_case(c.id);
-        ExecOpts o; o.prefill = 2;
-        execute(c, o, r);
-        std::string err = judge_model(c, r);
-        if (!err.empty()) ctx.violation(c.id, err);
-        ctx.end_case(c.nontrivial);
+        for (int layout = 0; layout < 3; ++layout) {
+          // 0: separate buffers; 1: in place (same pointer, same stride); 2: same pointer, a_sl = 2N (+3), res_sl = N (compaction:
+          //    limb 0 in place, the others out of place - the per-limb choice of the wrappers)
+          VecShape s; s.N = N; s.rs = rs; s.as = as; s.p = p;
+          if (layout == 0) { s.rsl = sl; s.asl = (sl == N ? N + 3 : N); s.res_extra = 1; }
+          else if (layout == 1) { s.rsl = s.asl = sl; s.alias = AL_RES_A; }
+          else { s.rsl = N; s.asl = 2 * N + (sl == N ? 0 : 3); s.alias = AL_RES_A_COMPACT; }
+          VecShape sc = canon_shape(op, s);
+          if (!alias_ok(op, sc)) continue;
+          ApiCase c = gen_vecop(mod, op, sc, mtype ? "ntt120" : "fft64", cfg.name);
+          if (!ctx.want(c.id)) continue;
+          ctx.begin_case(c.id);
+          ExecOpts o; o.prefill = 2;
+          execute(c, o, r);
+          std::string err = judge_model(c, r);
+          if (!err.empty()) ctx.violation(c.id, err);
+          ctx.end_case(c.nontrivial);
+        }
       }
     }
   }
